@@ -89,6 +89,30 @@ static void compare_pattern(const char *pat)
 							}
 					}
 				}
+		/* slices: the editor resumes a search or a substitution inside the line and passes the rest of the
+		 * line with not-BOL; both matchers must treat the slice start alike (neither may look to its left) */
+		for (k = 0; k < nsubj; k++) {
+			int off;
+			for (off = 1; subjects[k][off]; off++) {
+				int g1[8], g2[8], i, r1, r2;
+				if ((subjects[k][off] & 0xc0) == 0x80)
+					continue;
+				for (i = 0; i < 8; i++)
+					g1[i] = g2[i] = -7;
+				nv_re_depthhit = 0;
+				r1 = rstr_find(rt, subjects[k] + off, 4, g1, RE_NOTBOL);
+				r2 = rset_find(rs, subjects[k] + off, 4, g2, RE_NOTBOL);
+				n_cmp++;
+				if (nv_re_depthhit)
+					continue;
+				if ((r1 >= 0) != (r2 >= 0) || (r1 >= 0 && (g1[0] != g2[0] || g1[1] != g2[1])))
+					nv_viol("c12-differs", "kind=fastpath pattern=\"%s\" subject=\"%s\" from byte offset %d icase=%d notbol=1 noteol=0 single-pattern matcher: %s (%d,%d), pattern-set matcher: %s (%d,%d)%s",
+						nv_esc(pat, -1), nv_esc(subjects[k], -1), off, icase, r1 >= 0 ? "found" : "none", g1[0], g1[1],
+						r2 >= 0 ? "found" : "none", g2[0], g2[1], simple ? " [fast path]" : "");
+				else if (r1 >= 0)
+					n_found++;
+			}
+		}
 		rstr_free(rt);
 		rset_free(rs);
 	}
